@@ -186,6 +186,36 @@ theorem timedFrom_deltas (lo hi : Nat) (evs : List TE) (h : Within lo hi evs)
     have e : lo + (te.abs - lo) = te.abs := by omega
     rw [e, ih te.abs h3 (by omega)]
 
+/-- the same on the events with absolute ticks the model's loops carry -/
+def Gaps : Nat → List TE → Prop
+  | _, [] => True
+  | lo, te :: r => lo ≤ te.abs ∧ te.abs - lo < 4294967296 ∧ Gaps te.abs r
+
+theorem gaps_iff_gapsP (lo : Nat) (evs : List TE) : Gaps lo evs ↔ GapsP lo (evs.map TE.pair) := by
+  induction evs generalizing lo with
+  | nil => exact Iff.rfl
+  | cons te r ih =>
+    simp only [Gaps, List.map_cons, GapsP, TE.pair, ih]
+
+theorem gaps_of_within (lo hi : Nat) (evs : List TE) (h : Within lo hi evs) (hb : hi < lo + 4294967296) :
+    Gaps lo evs := by
+  induction evs generalizing lo with
+  | nil => trivial
+  | cons te r ih =>
+    obtain ⟨h1, h2, h3⟩ := h
+    exact ⟨h1, by omega, ih te.abs h3 (by omega)⟩
+
+theorem timedFrom_deltas_gaps (lo : Nat) (evs : List TE) (h : Gaps lo evs) :
+    timedFrom lo (deltas lo evs) = evs.map TE.pair := by
+  induction evs generalizing lo with
+  | nil => rfl
+  | cons te r ih =>
+    obtain ⟨h1, h2, h3⟩ := h
+    simp only [deltas, timedFrom, List.map_cons, TE.pair]
+    rw [u32sub_of_le _ _ h1 h2]
+    have e : lo + (te.abs - lo) = te.abs := by omega
+    rw [e, ih te.abs h3]
+
 /-! ## one result track -/
 
 theorem timedFrom_append (a : Nat) (t u : Track) :
@@ -201,13 +231,13 @@ theorem payload_close (t : Track) (δ : Nat) : payload (t.close δ) = payload t 
   · simp [payload, timed, timedFrom_append, timedFrom, List.filter_append]
 
 /-- the payload of a rebuilt track is the list it was rebuilt from, minus end-of-track -/
-theorem payload_mkTrack (evs : List TE) (hi : Nat) (hw : Within 0 hi evs) (hb : hi < 4294967296)
+theorem payload_mkTrack (evs : List TE) (hg : Gaps 0 evs)
     (hn : NoEarlyEOT evs) :
     payload (mkTrack evs) = (evs.map TE.pair).filter (fun p => p.2 != EOT) := by
   unfold mkTrack
   rw [payload_close, rebuild_eq [] 0 evs rfl hn, List.nil_append]
   simp only [payload, timed]
-  rw [timedFrom_deltas 0 hi evs hw (by omega)]
+  rw [timedFrom_deltas_gaps 0 evs hg]
 
 theorem mem_dropLast_filter {α} (p : α → Bool) (l : List α) (x : α)
     (h : x ∈ (l.filter p).dropLast) : x ∈ l.dropLast := by
